@@ -10,8 +10,12 @@ namespace QV.Writer
 open QV QV.Wire QV.Spec QV.Spec.Message QV.ServerSafety
 
 /-- the arguments of a call are values of their Rust types: `Name`s are well formed, types and
-    classes are 16-bit, an `Rdata` holds at most 65535 octets -/
+    classes are 16-bit, an `Rdata` holds at most 65535 octets, the ID is 16-bit, `Opcode` and
+    `Rcode` are 4-bit -/
 def Op.Typed : Op → Prop
+  | .setId v => v < 65536
+  | .setOpcode v => v < 16
+  | .setRcode v => v < 16
   | .addQuestion n t c => n.WF ∧ t < 65536 ∧ c < 65536
   | .addRr _ _ o ty cls _ rd _ => o.WF ∧ ty < 65536 ∧ cls < 65536 ∧ rd.length < 65536
   | .addRrset _ _ o ty cls _ rds _ => o.WF ∧ ty < 65536 ∧ cls < 65536 ∧ ∀ rd ∈ rds, rd.length < 65536
